@@ -857,6 +857,14 @@ impl Array<u8> {
         arr.meta.flags |= ArrayFlags::BOOLEAN_LITERAL;
         arr
     }
+    /// Convert the bytes to numbers that arithmetic will be done on in place
+    ///
+    /// The result is not known to be boolean even if the bytes were.
+    pub(crate) fn convert_for_arithmetic(self) -> Array<f64> {
+        let mut nums: Array<f64> = self.convert();
+        nums.meta.take_value_flags();
+        nums
+    }
 }
 
 impl Array<Boxed> {
